@@ -34,11 +34,13 @@ def rand_esis(rng, k, n, around, dup=True):
     m = max(0, min(n, around))
     S = rng.sample(range(n), m)
     h = list(S)
-    mode = rng.below(4)
+    mode = rng.below(5)
     if mode == 0:
         h.sort()
     elif mode == 1:
         h.sort(key=lambda e: (e < k, e))
+    elif mode == 4:
+        h.sort(reverse=True)
     if dup and h and rng.chance(1, 3):
         for _ in range(rng.rng(1, 4)):
             h.insert(rng.below(len(h) + 1), rng.choice(S))
@@ -92,7 +94,7 @@ def gen_requests(rng, n_per_codec, codecs=(RS28, RS2M, LDPC), big=False):
             api = rng.below(2)
             if api == 1:
                 esis = sorted(set(esis))
-            reqs.append(Req(codec, k, r, L, p1, p2, api, rng.below(4), rng.choice([0, 1, 1]), rng.choice([2, 2, 2, 3, 4]),
+            reqs.append(Req(codec, k, r, L, p1, p2, api, rng.below(4), rng.choice([0, 1, 1]), rng.choice([2, 2, 2, 3, 4, 5] if codec in (RS28, RS2M) else [2, 2, 2, 3, 4]),
                             esis, pseed=rng.below(10 ** 9)))
     return reqs
 
@@ -107,6 +109,8 @@ def oracles(q, a):
     if a.P != 0 or a.Q != 0:
         out.append(("C09", "valid-params-rejected", "valid parameters rejected (P=%s Q=%s)" % (a.P, a.Q)))
         return out
+    if getattr(a, "GI", None) == 0:
+        out.append(("C10", "table-not-empty", "of_get_source_symbols_tab reported a source symbol before any symbol was submitted"))
     if getattr(a, "ED", None) == 0:
         out.append(("C06", "encdec-build", "an OF_ENCODER_AND_DECODER session built repair symbols that are not the codeword's (or refused to build)"))
     if any(ch != "0" for ch in a.B):
